@@ -80,7 +80,12 @@ def build(case, log):
             fields.append(dict(declared, name=f))
     fields.append({'name': 'g', 'type': 'string', 'format': 'default'})
     other_rows = [dict(r, id=100 + r['id']) for r in copy.deepcopy(rows)]
-    st = mkstate([('other', fields, other_rows), ('t', fields, rows)])
+    ofields = fields
+    if case.get('eager'):
+        # the two resources differ in which fields the name pattern selects (f2 is called h2 in the first one)
+        ofields = [dict(f, name='h2') if f['name'] == 'f2' else f for f in copy.deepcopy(fields)]
+        other_rows = [{('h2' if k == 'f2' else k): v for k, v in r.items()} for r in other_rows]
+    st = mkstate([('other', ofields, other_rows), ('t', fields, rows)])
 
     def handler4(keep):
         def h(res_name, row, i, e):
@@ -136,12 +141,13 @@ def model(case, rows, resname):
         fobj = {f: tableschema.Field(fd, missing_values=['']) for f in ('f1', 'f2', 'f.')}
     policy = case['policy']
     out, calls = [], []
+    if case['via'] == 'validate' and rows and 'h2' in rows[0]:
+        fobj = dict(fobj, h2=fobj['f2'])
+        checked = ['f1', 'h2', 'f.']
     for i, row in enumerate(rows):
         r = copy.deepcopy(row)
         keep = True
-        for f in FIELDS:
-            if f not in checked:
-                continue
+        for f in [k for k in row if k in checked]:
             v = r.get(f)
             if case.get('transform') and isinstance(v, str) and v.startswith('#'):
                 v = v[1:]
@@ -169,7 +175,7 @@ def check(case):
     log = []
     label = '%s(%s, type=%s, policy=%s%s%s) on cell classes %r' % (
         case['via'], case.get('name', ''), case['type'], case['policy'],
-        ', resources=%r' % case['resources'] if 'resources' in case else '', ', transform' if case.get('transform') else '',
+        ', resources=%r' % case['resources'] if 'resources' in case else '', ', transform' if case.get('transform') else '' + (', consumed by a step that requests all resources first' if case.get('eager') else ''),
         case['pattern'])
     try:
         st, rows, other_rows, step = build(case, log)
@@ -181,7 +187,15 @@ def check(case):
         exp[name] = model(case, rws, name) if name in sel else {'raise': None, 'out': copy.deepcopy(rws), 'calls': []}
     first_raise = next(((n, exp[n]['raise']) for n in ('other', 't') if exp[n]['raise']), None)
     try:
-        out = core.materialise(core.from_state(st), step, via='results_raw')
+        links = [core.from_state(st), step]
+        if case.get('eager'):
+            def eager(package):
+                yield package.pkg
+                held = list(package)            # every resource iterator is requested before any row is read
+                for res in held:
+                    yield res
+            links.append(eager)
+        out = core.materialise(*links, via='results_raw')
         got = ('ok', out)
     except core.CaseTimeout:
         raise
@@ -278,6 +292,9 @@ def cases(tier):
                 out.append({'via': 'set_type', 'type': tname, 'policy': pol, 'pattern': pat, 'name': ['f.', True], 'resources': 't'})
                 out.append({'via': 'set_type', 'type': tname, 'policy': pol, 'pattern': pat, 'name': ['f.', True], 'transform': True})
                 out.append({'via': 'validate', 'type': tname, 'policy': pol, 'pattern': pat, 'resources': 't'})
+                out.append({'via': 'set_type', 'type': tname, 'policy': pol, 'pattern': pat, 'name': ['f.', True], 'resources': None, 'eager': True})
+                out.append({'via': 'set_type', 'type': tname, 'policy': pol, 'pattern': pat, 'name': ['f1', True], 'resources': None, 'eager': True})
+                out.append({'via': 'validate', 'type': tname, 'policy': pol, 'pattern': pat, 'eager': True})
     return out
 
 
